@@ -223,7 +223,13 @@ class FitHistMachine(Machine):
     def _new_data(self, rng, spec):
         t = spec["type"]
         if t == "xy":
-            return {"x": list(spec["x"]), "y": [round(v + rng.choice([-0.2, 0.1, 0.3]) if not spec["cost"] in fitlib.POISSON_LIKE else v + rng.choice([0, 1, 2]), 3) for v in spec["y"]]}
+            poisson = spec["cost"] in fitlib.POISSON_LIKE
+            xs = list(spec["x"])
+            if rng.random() < 0.7:  # different support points (x-dependent nodes must follow)
+                xs = sorted(set([float(v + rng.choice([0.0, 1.0, 2.0])) if poisson else round(v + rng.choice([0.0, 0.25, -0.25, 0.4]), 3) for v in xs]))
+                while len(xs) < len(spec["x"]):
+                    xs.append(xs[-1] + 1.0)
+            return {"x": xs, "y": [round(v + rng.choice([-0.2, 0.1, 0.3]) if not spec["cost"] in fitlib.POISSON_LIKE else v + rng.choice([0, 1, 2]), 3) for v in spec["y"]]}
         if t == "indexed":
             return {"d": [round(v + rng.choice([-0.2, 0.1, 0.3]) if not spec["cost"] in fitlib.POISSON_LIKE else v + rng.choice([0, 1, 2]), 3) for v in spec["d"]]}
         if t == "hist":
@@ -307,8 +313,14 @@ class FitHistMachine(Machine):
             if any(w == "model" for w in sim.src_where):
                 raise NotApplicable("model sources present")
             if t == "xy":
+                if len(a["x"]) != len(a["y"]) or len(a["x"]) != len(sim.ref.d):
+                    raise NotApplicable("size")
                 fit.data = [list(a["x"]), list(a["y"])]
                 sim.ref.d = np.array(a["y"], dtype=float)
+                xs = np.array(a["x"], dtype=float)
+                sim.ref.x = xs
+                mk = sim.spec["model"]
+                sim.ref.model = lambda p, xs=xs, mk=mk: np.asarray(fitlib._pure_xy(mk)(xs, *p), dtype=float)
             elif t == "indexed":
                 fit.data = list(a["d"])
                 sim.ref.d = np.array(a["d"], dtype=float)
@@ -423,6 +435,19 @@ class FitHistMachine(Machine):
                 continue
             got = read_obs(main.fit, name)
             res.bump("op_read")
+            pnew = [float(v) for v in main.fit.parameter_values]
+            moved = len(pnew) != len(pcur) or not np.allclose(pnew, pcur, rtol=1e-9, atol=1e-12, equal_nan=True)
+            if moved and len(pnew) == len(pcur) and name in ("parameter_cov_mat", "parameter_cor_mat", "parameter_errors", "asymmetric_parameter_errors", "result_dict", "report"):
+                # reads that let the minimizer work: "unchanged up to the minimizer tolerance" (C08's tier)
+                try:
+                    sig = np.asarray(main.fit.parameter_errors, dtype=float)
+                except Exception:
+                    sig = np.zeros(len(pcur))
+                tol = 0.05 * np.where(np.isfinite(sig) & (sig > 0), sig, 0.0) + 1e-6 * (np.abs(pcur) + 1e-3)
+                moved = bool(np.any(np.abs(np.array(pnew) - np.array(pcur)) > tol))
+            if moved:
+                raise Violation(PROP, "read-moved", "parameter_values", "reading %s changed the parameter values from %s to %s" % (name, pcur, pnew), step=step,
+                                extra={"tags": ["after-do_fit"] if main.fit.did_fit else []})
             if name in ("parameter_cov_mat", "parameter_cor_mat", "parameter_errors", "asymmetric_parameter_errors", "result_dict", "report"):
                 tainted = True
             if name == "report":
@@ -431,7 +456,7 @@ class FitHistMachine(Machine):
             if name in CLASS_B or name == "result_dict":
                 # minimizer-derived results are compared while they are *the results of the last fit*: after a later mutator
                 # kafe2 makes no statement about them (they describe an earlier configuration)
-                last_is_fit = bool(muts) and muts[-1][0] == "do_fit"
+                last_is_fit = bool(muts) and muts[-1][0] == "do_fit" and not main.spec.get("tiny")  # (badly scaled problems: the optimiser's own convergence is C06's subject)
                 if (last_is_fit and (step + case["seed"]) % 2 == 0) or n_fit == 0:
                     self.check_b(case, world, res, log, new, muts, main, name, got, step, n_fit, tainted)
             else:
